@@ -1,5 +1,6 @@
 import GV.Model.Offsets
 import GV.Model.OffsetsTruth
+import GV.Model.OffsetsWit
 import GV.Proofs.CborBytes
 import GV.Proofs.Offsets
 import GV.Proofs.OffsetsMap
@@ -222,6 +223,33 @@ theorem dijkstra_exact {b : Bytes} {h0 h1 h2 : Nat} {c0 c1 u0 u1 u2 u3 : Nat × 
     dijkstraOffsets b ([c0, c1].map fun p => slice b p.1 p.2) =
       some (ts.map (txTruth (slice (slice b c1.1 c1.2) u1.1 u1.2) (c1.1 + u1.1))) :=
   dijkstraOffsets_exact hlen hT hB hX hk
+
+/-! ### Script keys (recorded finding `script-key`)
+
+The `Scripts` map is documented as "script hash → byte location". The extractor hashes
+language ‖ <CBOR item bytes> for every script; `Script.Hash()` hashes language ‖ <CBOR> for a
+native script but language ‖ <script bytes> (the content of the byte string) for Plutus
+scripts. The repository's own test pins the extractor's behaviour, so this is recorded, not
+repaired. -/
+
+open GV.Model.OffsetsWit in
+/-- Full demand: the bytes hashed into the key are the bytes the script's own hash covers. -/
+def C07_scriptkey_full : Prop :=
+  ∀ (ty : Nat) (item c : Bytes), scriptHashBytes ty item = some c → extractorKeyBytes ty item = c
+
+open GV.Model.OffsetsWit in
+/-- It holds for native scripts (language 0). -/
+theorem C07_scriptkey_partial (item c : Bytes) (h : scriptHashBytes 0 item = some c) :
+    extractorKeyBytes 0 item = c := by
+  simpa [scriptHashBytes, extractorKeyBytes] using h
+
+open GV.Model.OffsetsWit in
+/-- It fails for Plutus scripts: the script `41 00` encoded `42 41 00` is keyed by the three
+    CBOR bytes instead of its two script bytes. -/
+theorem C07_scriptkey_witness : ¬ C07_scriptkey_full := by
+  intro h
+  have := h 1 [0x42, 0x41, 0x00] [0x41, 0x00] (by decide)
+  exact absurd this (by decide)
 
 /-- Non-vacuity of the Byron / Dijkstra / outputs / metadata statements: concrete blocks with
     non-minimal and indefinite headers on the path. -/
